@@ -25,6 +25,7 @@ def run(ctx) -> None:
     r2_prefix_scan(ctx)
     r3_native(ctx)
     r4_validation(ctx)
+    r5_expansion_table(ctx)
 
 
 def _eval(e: ast.AST, env: dict[str, Any]) -> Any:
@@ -212,3 +213,65 @@ def r4_validation(ctx) -> None:
     else:
         r.violation("C18.R4", pi_.qual, "if '%' in self.cidr: raise", "ip_network() accepts a zone identifier (fe80::1%eth0/128); the first address keeps it and the broadcast address does not, so the common-prefix scan of expand() runs past the shorter text: IndexError during conversion", pi_.loc)
     r.floor("C18.R4", 2)
+
+
+EXPAND_SAMPLES = ["10.0.0.0/8", "10.0.0.0/7", "192.168.1.0/24", "192.168.0.0/22", "0.0.0.0/0", "1.2.3.4/32", "10.1.2.128/25",
+                  "2001:db8::/32", "2001:db8:1::/64", "fe80::/10", "fe80::/64", "::1/128", "1234::/124", "::/0", "::/16", "::ffff:0:0/96",
+                  "64:ff9b::a00:0/104", "2001:db8::/127", "fe80::/125", "2001:db8:0:ab00::/56", "ff00::/8"]
+
+
+def _reference_expand(net, wildcard="*"):
+    """The expansion the comments of expand() describe, written independently: subnets up to the next group boundary
+    (8 bits for IPv4, 4 bits = one hex digit for IPv6); IPv4: the static octets + '.*'; IPv6: the text both the first and the
+    last address of the subnet start with + '*' (the whole first address + '*' if it is a prefix of the last one; the plain
+    address for a /128)."""
+    import ipaddress
+    pats = []
+    if isinstance(net, ipaddress.IPv4Network):
+        for sub in net.subnets((8 - net.prefixlen % 8) % 8):
+            g = sub.prefixlen // 8
+            groups = str(sub.network_address).split(".")
+            pats.append(wildcard if g == 0 else (".".join(groups[:g]) + "." + wildcard if g < 4 else str(sub.network_address)))
+    else:
+        for sub in net.subnets((4 - net.prefixlen % 4) % 4):
+            first, last = str(sub.network_address), str(sub.broadcast_address)
+            i = next((k for k in range(min(len(first), len(last))) if first[k] != last[k]), None)
+            if i is not None:
+                pats.append(first[:i] + wildcard)
+            elif sub.prefixlen < 128:
+                pats.append(first + wildcard)
+            else:
+                pats.append(first)
+    return pats
+
+
+def r5_expansion_table(ctx) -> None:
+    """expand() interpreted (sa.tabulate; the stdlib ipaddress module is the only library object) on sample networks and
+    compared with an independently written expansion. Decides the text arithmetic (where the wildcard is cut), not that
+    prefix matching on compressed IPv6 text is exact — it is not, see §9.6."""
+    import ipaddress
+    from ..tabulate import Interp, Raised
+    r, prog = ctx.r, ctx.prog
+    r.rule("C18.R5", "expansion table: SigmaCIDRExpression.expand(), interpreted on sample networks of both families (aligned and unaligned prefixes, zero-compressed addresses, /0, /32, /125…/128), yields the patterns of the independently written reference expansion")
+    f = prog.func(EXP)
+    bad = []
+    for cidr in EXPAND_SAMPLES:
+        net = ipaddress.ip_network(cidr)
+        me = type("C", (), {})()
+        me.network, me.cidr = net, cidr
+        it = Interp({"self": me, "wildcard": "*", "IPv4Network": ipaddress.IPv4Network, "IPv6Network": ipaddress.IPv6Network}, max_steps=200000)
+        try:
+            got = it.call(f.node.body)
+        except Raised as ex:
+            bad.append((cidr, f"raises {ex}"))
+            continue
+        want = _reference_expand(net)
+        if list(got) != want:
+            miss = [p_ for p_ in want if p_ not in got]
+            bad.append((cidr, f"gives {list(got)[:6]}{'…' if len(got) > 6 else ''}, the expansion is {want[:6]}{'…' if len(want) > 6 else ''}" + (f" (lost: {miss[:3]})" if miss else "")))
+    if bad:
+        cidr, why = bad[0]
+        r.violation("C18.R5", EXP, f"expand() of {cidr}", f"{why} (+{len(bad) - 1} more network(s)): the patterns no longer stand for the addresses of the network", f.loc)
+    else:
+        r.ok("C18.R5", EXP, f"{len(EXPAND_SAMPLES)} sample networks expand to the reference patterns", f.loc)
+    r.floor("C18.R5", 1)
